@@ -7,7 +7,9 @@ EXTENDS Grpc, TLC, Json
 CONSTANT Emit
 VARIABLE n   \* number of operations performed on the (stateless) interceptor
 Cfgs == [custom : BOOLEAN, customle : BOOLEAN, named : 0..2]   \* named: name / tag options absent, first, last - never part of the answer
-Ops == [kind : Kinds, grant : BOOLEAN, err : BOOLEAN, cls : {"success", "ignore", "dropped"}, lecode : {"Unavailable", "Aborted"}]
+\* ctx: the call's context stays live, is cancelled while the wrapped call runs, or has expired - never part of the answer
+Ops == [kind : Kinds, grant : BOOLEAN, err : BOOLEAN, cls : {"success", "ignore", "dropped"}, lecode : {"Unavailable", "Aborted"},
+        ctx : {"live", "cancelled", "expired"}]
 
 Init == n = 0
 Next == /\ n < 1
